@@ -10,7 +10,7 @@ EXTENDS Integers, FiniteSets, TLC, Json
 CONSTANTS Types, Mode, NCase
 VARIABLES c, k
 vars == <<c, k>>
-Order == [plane |-> 0, sphere |-> 2, capsule |-> 3, ellipsoid |-> 4, cylinder |-> 5, box |-> 6]
+Order == [plane |-> 0, sphere |-> 2, capsule |-> 3, ellipsoid |-> 4, cylinder |-> 5, box |-> 6, mesh |-> 7]   \* mesh: a random convex polytope
 Poses == {"separated", "margin", "touching", "shallow", "deep", "engulfed"}
 \* engulfed: the centre of a sphere lies inside the other geom (the analytic routines then have to choose the nearer face / cap / side)
 PoseFor(a, b) == LET p == RandomElement(Poses) IN IF p = "engulfed" /\ ~("sphere" \in {a, b} /\ "plane" \notin {a, b}) THEN "deep" ELSE p
